@@ -76,7 +76,13 @@ macro_rules! alu_family {
                 let max_len = if $quick { k_max + 1 } else { 2 * k_max + 1 };
                 for len in 1..=max_len {
                     let pats: Vec<BPat> = if $quick {
-                        if len == 2 { vec![BPat::Shared, BPat::Distinct] } else { vec![BPat::Shared] }
+                        if len == 2 {
+                            vec![BPat::Shared, BPat::Distinct]
+                        } else if len == 3 {
+                            vec![BPat::Shared, BPat::InnerOnBus]
+                        } else {
+                            vec![BPat::Shared]
+                        }
                     } else {
                         let mut p = vec![BPat::Shared];
                         if len >= 2 && len <= 4 {
@@ -85,6 +91,7 @@ macro_rules! alu_family {
                         if len >= 3 {
                             p.push(BPat::Split2);
                             p.push(BPat::TwoChains);
+                            p.push(BPat::InnerOnBus);
                         }
                         p
                     };
@@ -220,6 +227,15 @@ fn main() {
       }
     });
     let st = total.into_inner().unwrap();
+    // guard against silent loss of coverage (e.g. a scheduler change that stops packing with
+    // the preprocessed values this harness supplies): every packed arity must have been judged
+    if replaying.is_none() && ctx.opt("only").is_none() && st.cut == 0 {
+        for k in ["Horner/k1", "Horner/k2", "Horner/k3", "Horner/k4", "Add", "Mul", "Bool", "MulAdd", "Idle"] {
+            if st.per_kind.get(k).map(|v| v.1).unwrap_or(0) == 0 {
+                mach(&format!("no non-trivial case was judged for ALU row kind {k}: the harness' op shapes no longer produce it"));
+            }
+        }
+    }
     let exhaustive = st.cut == 0;
     println!(
         "C11: {} tasks ({} complete), {} base traces / {} rows checked in full, {} cases judged, {} non-trivial ({} distinct), {} filler==generator validations",
